@@ -208,17 +208,19 @@ OpsOf(dim) ==
   \cup {Op("conv", <<n>>) : n \in 0..2}
 
 BurgersKind(op) == op.name \in {"mass", "laplace", "conv"}     \* theta * M, nu * L (gradient form), beta * K(v)
+\* spaces for which the Burgers / blocked routes are exercised (velocity-type spaces)
+BlockedSpaces == {"lagrange1", "lagrange2", "crrt"}
 MatRoutes(op, shape, dim, T, R) ==
-  IF op.name = "conv" THEN (IF T = R THEN {"burgers", "burgersjob"} ELSE {})
+  IF op.name = "conv" THEN (IF T = R /\ T \in BlockedSpaces THEN {"burgers", "burgersjob"} ELSE {})
   ELSE {"classic", "domain", "apply"}
-       \cup (IF BurgersKind(op) /\ T = R THEN {"burgers", "burgersjob"} ELSE {})
+       \cup (IF BurgersKind(op) /\ T = R /\ T \in BlockedSpaces THEN {"burgers", "burgersjob"} ELSE {})
        \cup (IF op.name = "laplace" /\ T = "lagrange2" /\ R = "lagrange2" /\ shape = "hypercube" THEN {"voxel"} ELSE {})
 \* the reference route every other route is compared with
 RefRoute(op) == IF op.name = "conv" THEN "burgers" ELSE "classic"
 \* pairs of routes that run the same evaluation order on one thread: any difference is a divergence, not rounding
 BitwiseWithRef(op, r) == (RefRoute(op) = "classic" /\ r = "domain") \/ (RefRoute(op) = "burgers" /\ r = "burgersjob")
 \* routes that take the scaling factor alpha and add onto the existing matrix (AssembleTwice)
-AlphaRoutes == {"classic", "domain", "burgers", "burgersjob"}
+AlphaRoutes == {"classic", "domain", "burgers", "burgersjob", "voxel", "voxeldefo"}
 
 OpSensible(op, shape, dim, class, T, R) ==    \* a derivative on piecewise constants is identically zero: not a job
   /\ (NDeriv(op)[1] = 1 => LocalDeg(R, shape) >= 1)
@@ -226,6 +228,36 @@ OpSensible(op, shape, dim, class, T, R) ==    \* a derivative on piecewise const
   /\ (op.name \in {"dudv", "divdiv", "conv"} => T = R)
   \* the convection field is given as a coefficient vector of the same space: it must lie in it
   /\ (op.name = "conv" => \A k \in 1..dim : \A t \in RangeA(ConvField(dim, op.p[1])[k]) : t.e \in Monos(T, shape, dim, class))
+
+\* ---- blocked jobs: value type = dim x dim blocks (SparseMatrixBCSR) ------------------------------------------------
+\* mass_b / laplace_b / dudv_b = Identity/Laplace/DuDvOperatorBlocked;  the Burgers assemblers provide all kinds through
+\* their parameters (theta, nu without/with deformation, beta with a convection field, frechet_beta)
+BOpsOf(dim) == {Op("mass_b", << >>), Op("laplace_b", << >>), Op("dudv_b", << >>)}
+               \cup {Op("conv_b", <<n>>) : n \in 0..2} \cup {Op("frechet_b", <<n>>) : n \in 1..2}
+\* d_c beta_r of a field of the catalogue with linear components (an integer)
+FieldGrad(dim, n, r, c) == LET b == ConvField(dim, n)[r] IN SumA([q \in 1..Len(b) |-> b[q].c * b[q].e[c]])
+\* blocked = scalar (x) structure:  block (r,c) = s * (scalar matrix of operator op)
+BlockOf(bop, dim, r, c) ==
+  CASE bop.name = "mass_b"    -> [op |-> Op("mass", << >>), s |-> Delta(r, c)]
+    [] bop.name = "laplace_b" -> [op |-> Op("laplace", << >>), s |-> Delta(r, c)]
+    [] bop.name = "dudv_b"    -> [op |-> Op("dudv", <<r - 1, c - 1>>), s |-> 1]
+    [] bop.name = "conv_b"    -> [op |-> Op("conv", bop.p), s |-> Delta(r, c)]
+    [] bop.name = "frechet_b" -> [op |-> Op("mass", << >>), s |-> FieldGrad(dim, bop.p[1], r, c)]
+BlocksOf(bop, dim) == [r \in 1..dim |-> [c \in 1..dim |-> BlockOf(bop, dim, r, c)]]
+BHasClassic(bop) == bop.name \in {"mass_b", "laplace_b", "dudv_b"}
+BRoutes(bop, shape, T) ==
+  (IF BHasClassic(bop) THEN {"classic", "domain"} ELSE {}) \cup {"burgers", "burgersjob"}
+  \cup (IF T = "lagrange2" /\ shape = "hypercube" THEN {"voxel"} \cup (IF bop.name = "dudv_b" THEN {"voxeldefo"} ELSE {}) ELSE {})
+BRef(bop) == IF BHasClassic(bop) THEN "classic" ELSE "burgers"
+BOpSensible(bop, shape, dim, class, T) ==
+  /\ T \in BlockedSpaces
+  /\ (bop.name \in {"conv_b", "frechet_b"} =>
+        \A k \in 1..dim : \A t \in RangeA(ConvField(dim, bop.p[1])[k]) : t.e \in Monos(T, shape, dim, class))
+BReqDeg(bop, shape, dim, class, T) ==
+  LET o == IF bop.name \in {"conv_b", "frechet_b"} THEN Op("conv", bop.p) ELSE Op("mass", << >>) IN
+  ReqDegMat(shape, dim, class, T, T, o) + (IF shape = "simplex" /\ o.name = "conv" THEN 1 ELSE 0)
+\* pairs of routes that run the same evaluation order on one thread (any difference is a divergence, never rounding)
+BitPairs == {<<"classic", "domain">>, <<"burgers", "burgersjob">>}
 
 \* vector routes: classic = LinearFunctionalAssembler::assemble_vector, domain = LinearFunctionalAssemblyJob,
 \* domainforce = ForceFunctionalAssemblyJob (force only)
@@ -290,6 +322,11 @@ MatJobs(shape, dim, class, T, R) ==
   {MatJob(op, shape, dim, class, T, R, sl) : op \in MatOps(shape, dim, class, T, R), sl \in 0..DegSlack}
 VecJobs(shape, dim, class, T) ==
   {VecJob(fn, shape, dim, class, T, sl) : fn \in FuncsOf(dim), sl \in 0..DegSlack}
+BlkJob(bop, shape, dim, class, T, sl) ==
+  [k |-> "blk", bop |-> bop, deg |-> BReqDeg(bop, shape, dim, class, T) + sl, alphas |-> Alphas,
+   routes |-> SetToSeqA(BRoutes(bop, shape, T)), ref |-> BRef(bop), blocks |-> BlocksOf(bop, dim)]
+BlkJobs(shape, dim, class, T) ==
+  {BlkJob(bop, shape, dim, class, T, sl) : bop \in {b \in BOpsOf(dim) : BOpSensible(b, shape, dim, class, T)}, sl \in 0..DegSlack}
 
 Plans == {[shape |-> sh, dim |-> d, class |-> cl, test |-> pr[1], trial |-> pr[2]] :
             sh \in PlanShapes, d \in PlanDims, cl \in Classes, pr \in PlanPairs}
@@ -302,6 +339,7 @@ Spec == Init /\ [][Next]_plan
 
 JobsOf(p) == SetToSeqA(MatJobs(p.shape, p.dim, p.class, p.test, p.trial))
              \o (IF p.test = p.trial THEN SetToSeqA(VecJobs(p.shape, p.dim, p.class, p.test)) ELSE << >>)
+             \o (IF p.test = p.trial THEN SetToSeqA(BlkJobs(p.shape, p.dim, p.class, p.test)) ELSE << >>)
 
 Emit == PrintT(ToJson([plan |-> plan, jobs |-> JobsOf(plan)]))
 
